@@ -20,7 +20,7 @@ def run(prop, tier, seed, scratch, t0):
     if tier == "quick":
         mc, sims = (2, 2, 1), [(3, 2, 2, 800, 30)]
     else:
-        mc, sims = (2, 2, 2), [(3, 2, 2, 20000, 40), (3, 4, 3, 10000, 50)]
+        mc, sims = (2, 2, 2), [(3, 2, 2, 10000, 40), (3, 4, 3, 5000, 50)]
     tl, dr = [], []
 
     def r1():
@@ -37,7 +37,7 @@ def run(prop, tier, seed, scratch, t0):
         rs = vlib.tlc(scratch, "Update", CFG % (mv, T, mu, ""), name="Update_sim%d" % i, workers=1,
                       simulate="file=%s/b/t,num=%d" % (simdir, num), extra=["-depth", str(depth), "-seed", str(seed)], timeout=6000)
         rs["out"] = ""
-        shards = 8
+        shards = vlib.NCPU
         with cf.ThreadPoolExecutor(max_workers=shards) as ex:
             ds = list(ex.map(lambda k: vlib.run_driver(binary, "TestUpdate", dict(VERIF_SIM_DIR=os.path.join(simdir, "b"), VERIF_T=T,
                                                                                   VERIF_SHARD=k, VERIF_SHARDS=shards, VERIF_SEED=seed),
